@@ -66,6 +66,18 @@ def _out_kwargs(o):
     return kw
 
 
+def _sparse_cp(A, fmt, pattern_of=None):
+    """scipy sparse matrix with the values of A on the fixed pattern nonzeros(pattern_of) + column 0 (explicit
+    zeros are stored)."""
+    A = np.asarray(A)
+    P = np.asarray(pattern_of if pattern_of is not None else A) != 0
+    P = P.copy()
+    P[:, 0] = True
+    r, c = np.nonzero(P)
+    coo = sp.coo_matrix((A[r, c], (r, c)), shape=A.shape)
+    return {'csr_cp': coo.tocsr, 'csc_cp': coo.tocsc, 'coosp_cp': lambda: coo}[fmt]()
+
+
 def _declare(comp, of, wrt, A, fmt, const):
     """Declare one sub-jacobian in the plan's format.  const=False leaves values to compute_partials."""
     A = np.array(A, dtype=float)
@@ -86,6 +98,11 @@ def _declare(comp, of, wrt, A, fmt, const):
         else:
             comp.declare_partials(of, wrt, rows=r, cols=c)
         return ('coo', r, c)
+    if fmt in ('csr_cp', 'csc_cp', 'coosp_cp'):
+        # a scipy sparse value with a fixed pattern (the nonzeros of A plus column 0, which a quadratic term
+        # fills); compute_partials / linearize assign a new matrix of that pattern every time
+        comp.declare_partials(of, wrt, val=_sparse_cp(A, fmt))
+        return ('spcp', fmt, None)
     if fmt == 'diag':
         comp.declare_partials(of, wrt, rows=np.arange(m), cols=np.arange(m), val=np.diag(A).copy())
         return ('coo', np.arange(m), np.arange(m))
@@ -182,12 +199,14 @@ class AffStub(om.ExplicitComponent):
             of, wrt = key.split('|')
             fmt = s['fmt'][key]
             nonconst = q and q['out'] == of and q['in'] == wrt
-            if fmt in ('dense_cp', 'coo_cp') or nonconst:
+            if fmt in ('dense_cp', 'coo_cp', 'csr_cp', 'csc_cp', 'coosp_cp') or nonconst:
                 A = self._J(of, wrt, inputs)
                 if kind == 'dense':
                     J[of, wrt] = A * (np.nan if k == 'nan' else 1.0)
                 elif kind == 'coo':
                     J[of, wrt] = A[r, c] * (np.nan if k == 'nan' else 1.0)
+                elif kind == 'spcp':
+                    J[of, wrt] = _sparse_cp(A * (np.nan if k == 'nan' else 1.0), r, pattern_of=s['A'][of][wrt])
                 else:
                     J[of, wrt] = sp.csr_matrix(A)
 
@@ -285,10 +304,10 @@ class ImpStub(om.ImplicitComponent):
         rt = self.options['rt']
         rt.hit(s['name'], 'linearize')
         for key, (kind, r, c) in self._decl.items():
-            if s['fmt'][key] in ('dense_cp', 'coo_cp'):
+            if s['fmt'][key] in ('dense_cp', 'coo_cp', 'csr_cp', 'csc_cp', 'coosp_cp'):
                 of, wrt = key.split('|')
                 A = np.array(s['D']) if wrt == of else -np.array(s['A'][of][wrt])
-                J[of, wrt] = A if kind == 'dense' else A[r, c]
+                J[of, wrt] = A if kind == 'dense' else (_sparse_cp(A, r) if kind == 'spcp' else A[r, c])
 
     def solve_linear(self, d_outputs, d_residuals, mode):
         s = self.options['spec']
@@ -383,6 +402,39 @@ def normalise_promotions(world):
     return world
 
 
+def _cls(base, world, c):
+    """The stub class, with System.load_case overridden for the component the plan names (the documented
+    hook for systems that need special handling when a case is loaded: this one writes its own recorded
+    variables itself)."""
+    if world.get('load_case_override') != c['name']:
+        return base
+
+    class WithLoadCase(base):
+        def load_case(self, case):
+            self.options['rt'].hit(self.options['spec']['name'], 'load_case')
+            model = self._problem_meta['model_ref']()
+            pre = self.pathname + '.'
+            # exactly the share Problem.load_case leaves to this system: recorded inputs by absolute name, and
+            # recorded outputs by the (promoted) name they are keyed with -- which for an input of this component
+            # that is fed by an automatic IndepVarComp is the name of that input
+            # (recorded values of this component's connected inputs are not written: set_val on a connected input
+            # writes its source, and this hook runs after Problem.load_case has restored the sources)
+            if case.outputs is not None:
+                resolver = model._resolver
+                for n in case.outputs:
+                    # (a recorded output is keyed by promoted name; for the source of an automatically connected
+                    # input that is the input's promoted name, and Problem.load_case leaves it to the system
+                    # that owns the input)
+                    try:
+                        absn = list(resolver.absnames(n))
+                    except Exception:      # noqa
+                        absn = []
+                    if any(a.startswith(pre) for a in absn):
+                        model.set_val(n, case.outputs[n])
+    WithLoadCase.__name__ = base.__name__
+    return WithLoadCase
+
+
 # ----------------------------------------------------------------------------- builder
 NL = {
     'runonce': lambda s: om.NonlinearRunOnce(),
@@ -436,11 +488,11 @@ def build(world, rt, name='w', tol=None, reorder=False, problem_kwargs=None):
                     for d in c.get('discrete_out', []):
                         comp.add_discrete_output(d['name'], val=d['val'])
                 elif c['kind'] == 'imp':
-                    comp = ImpStub(spec=c, rt=rt)
+                    comp = _cls(ImpStub, world, c)(spec=c, rt=rt)
                 elif c.get('mf'):
-                    comp = AffStubMF(spec=c, rt=rt)
+                    comp = _cls(AffStubMF, world, c)(spec=c, rt=rt)
                 else:
-                    comp = AffStub(spec=c, rt=rt)
+                    comp = _cls(AffStub, world, c)(spec=c, rt=rt)
                 pin, pout = [], []
                 for i in c['ins']:
                     if i.get('via') == 'promote':
